@@ -1,4 +1,5 @@
-\* behaviour emission: creates, rejected creates, modifies
+\* ModifyInstance of the reference properties of an id-keyed association instance (cross-namespace <-> single
+\* namespace), repaired design: every stored copy follows.  Must hold.
 SPECIFICATION Spec
 CONSTANTS
   LegacyBreak = FALSE
@@ -6,18 +7,18 @@ CONSTANTS
   NoShadow = FALSE
   NoPreCheck = FALSE
   XParU = {}
-  ModEnds = "off"
+  ModEnds = "fixed"
   ShallowSub = FALSE
   IgnoreNs = FALSE
   ModSharedPath = FALSE
-  MaxMod = 1
+  MaxMod = 0
   NodeU <- NodeU5
-  MaxAssoc = 4
+  MaxAssoc = 1
   CreateNs = {1, 2}
-  ClsU = {"AB", "ABS", "AT", "AL"}
+  ClsU = {"AL"}
   AcU <- AcSmall
   RcU <- RcSmall
   RlU <- RlSmall
-  GenDepth = 7
-CONSTRAINT GenConstraint
+  GenDepth = 0
+INVARIANT ImplEqualsDecl
 CHECK_DEADLOCK FALSE
